@@ -59,7 +59,14 @@ func execRun(p *props.Prop, tape *core.Tape, keep bool) (r *core.Run) {
 	r = core.NewRun(p.ID, tape, keep)
 	defer func() {
 		if rec := recover(); rec != nil {
-			r.HarnessError("harness panic: %v\n%s", rec, trimStack(string(debug.Stack())))
+			st := string(debug.Stack())
+			if fn := core.LibraryPanicSite(st); fn != "" {
+				// the library itself panicked under a call the scenario makes outside a guard (ordinary,
+				// well-formed use): that is an outcome of the system under test, not harness trouble
+				r.Fail("totality", p.ID+"/library-panic-under-ordinary-use/"+fn, map[string]any{"panic": fmt.Sprint(rec), "stack": trimStack(st)})
+				return
+			}
+			r.HarnessError("harness panic: %v\n%s", rec, trimStack(st))
 		}
 	}()
 	p.Run(r)
